@@ -27,7 +27,7 @@ def run_check(pid: str, repo: str):
     return pid, p.returncode, hits
 
 
-def evaluate(patch: str, repo: str = "/repo"):
+def evaluate(patch: str, repo: str = os.environ.get("REPO", "/repo")):   # REPO: a scratch worktree of the same commit
     dirty = subprocess.run(["git", "-C", repo, "status", "--porcelain", "--untracked-files=no"],
                            capture_output=True, text=True).stdout.strip()
     if dirty:
